@@ -1,0 +1,40 @@
+//go:build verif
+
+package meta
+
+import "sync/atomic"
+
+var verifPointFn atomic.Value // func(string)
+
+// VerifSetPointFn installs the callback invoked at named steps (build tag "verif" only).
+func VerifSetPointFn(f func(string)) { verifPointFn.Store(f) }
+
+func verifPoint(name string) {
+	if f, ok := verifPointFn.Load().(func(string)); ok && f != nil {
+		f(name)
+	}
+}
+
+// VerifClientSetData installs a new metadata value in the client's cache exactly as
+// pollForUpdates does after fetching a snapshot.
+func VerifClientSetData(c *Client, data *Data) {
+	c.mu.Lock()
+	idx := c.cacheData.Index
+	c.cacheData = data
+	c.updateAuthCache()
+	c.updateNodeID()
+	c.updateMetaServers()
+	if idx < data.Index {
+		close(c.changed)
+		c.changed = make(chan struct{})
+	}
+	c.mu.Unlock()
+}
+
+// VerifClientAuthCached reports whether the credential cache holds an entry for the user.
+func VerifClientAuthCached(c *Client, user string) bool {
+	c.mu.RLock()
+	defer c.mu.RUnlock()
+	_, ok := c.authCache[user]
+	return ok
+}
